@@ -604,7 +604,11 @@ func GenScenario(t *rapid.T, cfg GenConfig) Scenario {
 	if err != nil {
 		t.Fatalf("generated universe does not index: %v", err)
 	}
-	return Scenario{Universe: u, Manifest: GenManifest(t, ix, cfg), Vulns: GenVulns(t, ix, cfg), Levels: GenLevels(t, ix)}
+	m := GenManifest(t, ix, cfg)
+	if cfg.System == Maven {
+		m.InertProfile = Pct(t, "inert_profile") < 30
+	}
+	return Scenario{Universe: u, Manifest: m, Vulns: GenVulns(t, ix, cfg), Levels: GenLevels(t, ix)}
 }
 
 // Strategy is the remediation strategy FixVulns supports for the scenario's manifest.
